@@ -326,4 +326,21 @@ theorem fieldStyle_ind (m : Nat) (head number : String) (ps : List POpt) :
     · simp [ind_zero]
     · simp only [List.map_append, List.map_cons, List.map_nil, ind_zero, fieldBody_ind m ps, List.cons_append]
 
+theorem optionStmt1_ind (m : Nat) (name : String) (single : Bool) (v : Opt) :
+    optionStmt1 m name single v = (optionStmt1 0 name single v).map (ind m) := by
+  unfold optionStmt1
+  cases inlineString single v with
+  | some s => simp [ind_zero]
+  | none =>
+    cases v with
+    | scalar k x => simp [ind_zero]
+    | arr k ks => simp
+    | msg k ks =>
+      cases ks with
+      | nil => simp [ind_zero]
+      | cons a r =>
+        have := msgFields_ind m 0 (a :: r)
+        simp only [Nat.add_zero] at this
+        simp [ind_zero, this]
+
 end J5V.Print.OptionText
